@@ -326,6 +326,12 @@ def sha1_rules(ctx):
                 n_w += 1
                 ctx.ob("SHA1", f"state-writer|{name.split('::')[-1]}", len(touched) == n_fields, f"{name} writes hasher fields {sorted(touched)}; a method that changes the hasher state changes all of {[f_['name'] for f_ in sha_adt['variants'][0]['fields']]} (chaining state, buffered block, processed-byte count)", b.file, b.line)
         ctx.floor("SHA1", "methods that write the hasher state", n_w, 1)
+    # the unsafe operations of the hash modules (the 64-byte block cast of SHA-1, the libz crc32 call) stay inside the
+    # slice they are given (pv/unsafe_rule.py)
+    from ..unsafe_rule import rule as _unsafe_rule
+
+    n_u = _unsafe_rule(ctx, [n_ for n_ in prog.raw_bodies if n_.startswith(("sha1::", "crc::"))])
+    ctx.floor("UNSAFE", "unsafe operations in the hash modules", n_u, 2)
     dl = prog.const_scalar("sha1::DIGEST_LENGTH")
     ctx.ob("SHA1", "DIGEST_LENGTH", dl == 20, f"DIGEST_LENGTH = {dl}", "src/sha1.rs")
     # round-group dispatch
